@@ -97,8 +97,7 @@ Body(c, s) ==
       [] c.proto = "tcp+sni"        -> CH \o RawPay(s)
       [] c.proto = "https+tcp+sni"  -> CH \o WebPay(s)
 StreamOf(c, s) == HeadSeq(s) \o Body(c, s)
-StreamTab == [u \in Universe |-> StreamOf(u.c, u.s)]       \* evaluated once
-stream == StreamTab[[c |-> cfg, s |-> scr]]
+stream == StreamOf(cfg, scr)
 
 (* What the documentation (the PROXY protocol text it refers to) makes of a complete line *)
 Declares(s)   == s.head = "v1"                       \* a valid line that declares a TCP source
@@ -130,6 +129,15 @@ Init ==
     /\ tls = IF cfg.proto \in {"https", "tcps"} THEN "wait" ELSE "na"
     /\ hs = "init" /\ hq = "" /\ fwd = 0
     /\ up = <<>> /\ upeof = FALSE /\ resps = <<>> /\ closed = FALSE
+
+(* Sizes: a receiver cannot tell that a stream does not start with a TLS handshake record   *)
+(* before it has the 5 bytes of a record header (the SNI proxy looks at 9 bytes).  One-   *)
+(* character tokens, CR, LF and V2a are one byte, every other token is longer than that.   *)
+Small(t) == t \in {"P","R","O","X","Y"," ","T","C","4","6","1","2","3","5","7","8","9","0",".",":","d","b","U","N","K","W","CR","LF","V2a"}
+Size(t)  == IF Small(t) THEN 1 ELSE 9
+RECURSIVE SumSize(_, _)
+SumSize(b, n) == IF n = 0 THEN 0 ELSE SumSize(b, n - 1) + Size(stream[b + n])
+BytesAt(b) == SumSize(b, IF sent - b > 9 THEN 9 ELSE sent - b)    \* bytes (capped) that have arrived behind offset b
 
 Decided == ph \in {"na", "hdr", "pass"}
 Dead    == ph = "dead"
@@ -196,7 +204,7 @@ Timeout ==
 SniffBase == IF SniffBeforeHeader THEN 0 ELSE hlen
 SniffReady == IF SniffBeforeHeader THEN TRUE ELSE Decided
 HelloAt(b) == b + 2 <= sent /\ stream[b + 1] = "CHa" /\ stream[b + 2] = "CHb"
-NotHelloAt(b) == (b < sent /\ stream[b + 1] # "CHa") \/ (fin /\ ~HelloAt(b) /\ (b = sent \/ b + 1 = sent))
+NotHelloAt(b) == (b < sent /\ stream[b + 1] # "CHa" /\ (BytesAt(b) >= 5 \/ fin)) \/ (fin /\ ~HelloAt(b) /\ (b = sent \/ b + 1 = sent))
 Dispatch ==
     /\ Hts /\ disp = "?" /\ SniffReady /\ ~Dead
     /\ HelloAt(SniffBase) \/ NotHelloAt(SniffBase)
@@ -222,7 +230,7 @@ TlsOk ==
     /\ UNCHANGED <<cfg, scr, tbl, sent, fin, timer, ph, scan, hlen, eff, disp, dtbl, hs, hq, up, upeof, resps, closed>>
 TlsFail ==
     /\ tls = "wait" /\ Decided
-    /\ (Have(1) /\ In(1) # "CHa") \/ (fin /\ ~Have(2))
+    /\ (Have(1) /\ In(1) # "CHa" /\ (BytesAt(hlen) >= 5 \/ fin)) \/ (fin /\ ~Have(2))
     /\ tls' = "fail" /\ closed' = TRUE
     /\ UNCHANGED <<cfg, scr, tbl, sent, fin, timer, ph, scan, hlen, eff, disp, dtbl, hs, hq, fwd, up, upeof, resps>>
 
@@ -248,7 +256,7 @@ SniOpen ==
     /\ UNCHANGED <<cfg, scr, tbl, sent, fin, timer, ph, scan, hlen, eff, disp, dtbl, tls, hq, fwd, upeof, resps>>
 SniBad ==  \* no ClientHello: the connection is closed, no upstream is contacted
     /\ Kind = "sni" /\ hs = "init" /\ Decided
-    /\ (Have(1) /\ In(1) # "CHa") \/ (fin /\ ~Have(2))
+    /\ (Have(1) /\ In(1) # "CHa" /\ (BytesAt(hlen) >= 9 \/ fin)) \/ (fin /\ ~Have(2))
     /\ hs' = "end" /\ closed' = TRUE
     /\ UNCHANGED <<cfg, scr, tbl, sent, fin, timer, ph, scan, hlen, eff, disp, dtbl, tls, hq, fwd, up, upeof, resps>>
 TcpFwd ==
@@ -311,7 +319,7 @@ Spec == Init /\ [][Next]_vars /\ WF_vars(Internal) /\ WF_vars(Timeout) /\ WF_var
 (* What MUST hold (documentation) *)
 
 TypeOK ==
-    /\ [c |-> cfg, s |-> scr] \in Universe /\ tbl \in Tables
+    /\ cfg.proto \in Protos /\ cfg.pxy \in BOOLEAN /\ cfg.rt \in BOOLEAN /\ scr.head \in HeadKinds /\ tbl \in Tables
     /\ sent \in 0..Len(stream) /\ fin \in BOOLEAN
     /\ timer \in {"off", "armed", "fired"}
     /\ ph \in {"na", "idle", "prefix", "line", "hdr", "pass", "dead"}
